@@ -122,6 +122,8 @@ pub fn write_txt_reports<W: io::Write + ?Sized>(
                         write!(out_writer, "{}", metadata)?;
 
                         bal_reporter.write_txt_report(settings, &mut out_writer, txn_set)?;
+                        // a write error in the last buffer must not be lost in drop
+                        out_writer.flush()?;
 
                         if let Some(p) = prog_writer.as_mut() {
                             writeln!(p, "{:>21} : {}", "Balance Report", path)?;
@@ -150,6 +152,8 @@ pub fn write_txt_reports<W: io::Write + ?Sized>(
                         write!(out_writer, "{}", metadata)?;
 
                         bal_group_reporter.write_txt_report(settings, &mut out_writer, txn_set)?;
+                        // a write error in the last buffer must not be lost in drop
+                        out_writer.flush()?;
 
                         if let Some(p) = prog_writer.as_mut() {
                             writeln!(p, "{:>21} : {}", "Balance Group Report", path)?;
@@ -177,6 +181,8 @@ pub fn write_txt_reports<W: io::Write + ?Sized>(
                             create_output_file(output_dir, output_name, "reg", "txt")?;
                         write!(out_writer, "{}", metadata)?;
                         reg_reporter.write_txt_report(settings, &mut out_writer, txn_set)?;
+                        // a write error in the last buffer must not be lost in drop
+                        out_writer.flush()?;
                         if let Some(p) = prog_writer.as_mut() {
                             writeln!(p, "{:>21} : {}", "Register Report", path)?;
                         }
